@@ -328,7 +328,24 @@ func (c *c05Checker) Abort() string { return c.abort }
 func (c *c05Checker) Truncated() bool { return c.trunc }
 func (c *c05Checker) Stop() bool      { return c.stop || c.trunc }
 
+// realToASCII delegates domain-to-ASCII for IDNA hosts to the implementation (the properties take
+// the IDNA mapping as given; everything around it stays the model's). The method is reached
+// through an interface assertion; if a refactoring removes it the model falls back to
+// "unsupported" and such runs are truncated as before.
+func realToASCII(domain string) (string, bool, bool) {
+	t, ok := url.NewParser().(interface {
+		ToASCII(src string, beStrict bool) (string, error)
+	})
+	if !ok {
+		return "", false, false
+	}
+	a, err := t.ToASCII(domain, false)
+	return a, err == nil, true
+}
+
 func (c *c05Checker) After(w *World, ev *Event) []Failure {
+	model.ToASCIIHook = realToASCII
+	defer func() { model.ToASCIIHook = nil }()
 	if ev.Created >= 0 {
 		uh := w.U[ev.Created]
 		o := w.Cur[ev.Created]
